@@ -533,6 +533,10 @@ class BaseTrigger(ABC):
             if not condition.is_satisfied_by(context):
                 return None
 
+        elif not condition.is_satisfied_by(context):
+            # Never executed before: the check window still applies
+            return None
+
         # Try to atomically update the last execution time
         success = self.store_last_cron_execution(
             condition_id, current_time, expected_last_execution=storage_last_execution
